@@ -24,13 +24,15 @@ META = {
                   "Adjoint/Pow/Controlled variants (control values, work wires of both types) is executed and its circuit compared "
                   "with the operator's matrix on the operator's wires; zeroed work wires must return to |0>, borrowed ones act as identity. "
                   "Held on the pairs observed; rules never found applicable are listed as uncovered.",
-    "level_note": "Target = qp.matrix(op) (the operator's own matrix, per the statement); for templates without a native matrix this is "
-                  "the matrix of the legacy decomposition() (agreement of two real paths, weaker; counted as target:legacy-decomposition) "
+    "level_note": "Target = qp.matrix(op) (the operator's own matrix, per the statement); for six arithmetic templates (Incrementer, Adder, "
+                  "Multiplier, OutAdder, OutMultiplier, SemiAdder) the documented classical action on basis states (independent oracle, "
+                  "target:documented-arithmetic); for the other templates without a native matrix the harness's simulation of the legacy "
+                  "decomposition() (agreement of two real paths, weaker; counted as target:legacy-decomposition) "
                   "restricted to the documented input domain (work wires |0>, x < mod). Matrices of emitted gates come from the independent "
                   "table when tabulated, else from qp.matrix of the emitted gate. Approximate templates are C58's; MCM rules are C13's. "
                   "The ambient wrapper on rule invocations from other checks (design) is not installed: only driven invocations are judged.",
     "shards": {"quick": 4, "thorough": 16},
-    "budget_s": {"quick": 55, "thorough": 130},
+    "budget_s": {"quick": 55, "thorough": 110},
     "min_evals": {"quick": 600, "thorough": 6000},
     "min_nontrivial": {"quick": 300, "thorough": 3000},
     "deciding": ["rule.matrix"],
@@ -171,6 +173,15 @@ def run(ctx):
         if inst.sym and inst.sym[0] == "pow" and float(inst.sym[1]) != int(inst.sym[1]) and not work:
             if _other_branch(D, t, inst, CC, qp):
                 mech = f"pow-branch:{rule.name}"
+        root = inst
+        while root.base is not None:
+            root = root.base
+        try:
+            if CC.target_of(qp, root).get("legacy_agrees") is False:
+                # the operator's own decomposition() contradicts its documented arithmetic: one mechanism for the class
+                mech = f"documented-arithmetic:{name}"
+        except Exception:  # noqa: BLE001
+            pass
         if only_phase:
             msg = (f"{tagkey}::{rule.name} on {info['op']}: circuit equals the operator only up to the global phase "
                    f"e^(i*{res.get('W_angle')})")
